@@ -127,6 +127,12 @@ C13Substitution ==
      /\ Expand(l2, "mb", <<<<"mb">>, <<"ax">>>>, {}).err = "recursive"
      /\ Expand(l3, "ma", <<<<"ax">>>>, {}).err = "recursive"
      /\ Expand(l2, "mq", <<<<"ax">>>>, {}).err = "unknown"
+     \* a macro may stand for nothing and may take no parameters; using it twice side by side is not recursion
+     /\ LET l4 == << [name |-> "me", params |-> <<"r">>, body |-> << >>],
+                     [name |-> "mf", params |-> << >>, body |-> <<[k |-> "use", name |-> "me", args |-> <<<<"ax">>>>], [k |-> "ins", toks |-> <<"inc", "bx">>],
+                                                                  [k |-> "use", name |-> "me", args |-> <<<<"ax">>>>]>>] >>
+        IN /\ Expand(l4, "me", <<<<"ax">>>>, {}) = [err |-> "", code |-> << >>]
+           /\ Expand(l4, "mf", << >>, {}) = [err |-> "", code |-> <<<<"inc", "bx">>>>]
 
 Emit == (Gen /\ stage = "done") => PrintT(<<"REPLAY", ToJson([lib |-> lib, use |-> use, err |-> Result.err, code |-> Result.code])>>)
 =============================================================================
